@@ -127,6 +127,36 @@ def run_layer_a(rep: C.Report, n: int, oracle, rng, corpus_dir=None):
     return found
 
 
+def run_stage_tie(rep, rng, n):
+    """Model/Stage.v run_stage vs ONE real Downloader.download() over 2-4 files with disjoint target paths
+    (nthreads 1 or 4: the order does not matter for disjoint files)."""
+    sb = LA.sandbox()
+    rows = []
+    found = False
+    try:
+        for _ in range(n):
+            cases = LA.prepare_stage(rng)
+            nth = rng.choice([1, 4])
+            try:
+                o = LA.run_stage_impl(cases, sb, nthreads=nth)
+            except LA.sim.RequestBudgetExceeded as e:
+                found = True
+                rep.violation(f"a stage of {len(cases)} files does not terminate: {e.path} requested more than {e.n} times",
+                              {"kind": "oracle", "tie": "stage", "case": [LA.jsonable(c) for c in cases]}, tags={"oracle": "termination"})
+                continue
+            rep.case(("stage", len(cases), tuple(o["counters"][i] for i in (0, 2, 4, 6)), nth),
+                     sample={"files": len(cases), "counters": o["counters"], "nthreads": nth})
+            rep.count("stage")
+            rows.append(([LA.jsonable(c) for c in cases], LA.c_stage(cases, o["views"]), LA.c_stage_obs(o)))
+    finally:
+        shutil.rmtree(sb, ignore_errors=True)
+    header = LA.HEADER + LA.COQ_DEFS + LA.STAGE_DEFS
+    mism, errors = C.run_mismatch_shards(rep.prop, "stage", header, "m_stage", "eq_stage", [(a, b) for _, a, b in rows], shard=40)
+    C.tie_verdict(rep, "stage", mism, errors, [c for c, _, _ in rows], found, header=header, fn="m_stage",
+                  coq_inputs=[a for _, a, _ in rows])
+    return found
+
+
 def run(rep: C.Report):
     rep.rule = ("one queued DownloadFile (1-3 compression variants, by-hash aliases, declared size or none, "
                 "pre-existing targets) x per-path response scripts (404, 5xx, announced/delivered size "
@@ -140,6 +170,7 @@ def run(rep: C.Report):
     rng = random.Random(rep.seed)
     n = 700 if rep.tier == "quick" else 12000
     found = run_layer_a(rep, n, oracle_c05, rng, C.VERIF / "corpus" / "C05")
+    found |= run_stage_tie(rep, random.Random(rep.seed + 505), 80 if rep.tier == "quick" else 3000)
     C.proof_verdict(rep, found)
 
 
